@@ -235,6 +235,8 @@ def run(ctx):
         for p in sorted(ctx.F.bodies):
             if not (p.startswith(MOD) or p.startswith("<" + MOD)) or "as std::fmt::Debug>" in p or "::tests::" in p:
                 continue
+            if p.split("::{closure")[0] in ctx.F.spliced_away:
+                continue      # a new helper that lives on inside its callers: its reads are theirs
             b = ctx.body(p)
             hit = False
             for i in b.live_blocks():
